@@ -6,7 +6,7 @@ import json, os, re, shutil, subprocess, sys
 src, name, prop, needs = sys.argv[1:5]
 flags = sys.argv[5:]
 dst = os.path.join('/verif/seeded', name)
-ver = subprocess.run(['/verif/tools/verifyseed.sh', src] + flags, capture_output=True, text=True).stdout
+ver = subprocess.run(['/verif/tools/verifyseed.sh', src] + flags, capture_output=True).stdout.decode('utf-8', 'replace')
 m = re.search(r'RESULT \S+: suite_with_patch_passes=(\w+) demo_with_patch=(\w+) demo_without_patch=(\w+) tests=(.*)', ver)
 if not m or m.group(1) != 'yes' or m.group(2) != 'FAIL' or m.group(3) != 'PASS':
     print('NOT CONFIRMED:', ver[-1500:]); sys.exit(1)
